@@ -308,6 +308,25 @@ Definition clearbuf (s : st) : st :=
        (files s) (born s).
 Definition flush (s : st) : st := clearbuf (flushout s).
 
+(* chunkPos.getNextChunkRef on its own: position (seq, off, cutFile), a chunk of btw bytes in all
+   (bytesToWriteForChunk).  Result: the cut decision, the ref, the new position. *)
+Definition size_of_len (dl : N) : N := 8 + 16 + 1 + nlen (put_uvarint dl) + dl + 4.
+
+Definition alloc (seq off : N) (cutf : bool) (btw : N) : bool * ref * (N * N * bool) :=
+  let cut := cutf || (off =? 0) || (max_file_size <? off + btw) in    (* shouldCutNewFile(bytesToWrite) *)
+  let seq' := if cut then seq + 1 else seq in
+  let off' := if cut then 8 else off in
+  (cut, (seq', off'), (seq', off' + btw, if cut then false else cutf)).
+
+(* a run of WriteChunk calls, each optionally preceded by CutNewFile *)
+Fixpoint alloc_run (seq off : N) (cutf : bool) (steps : list (bool * N)) : list (bool * ref * N) * (N * N * bool) :=
+  match steps with
+  | [] => ([], (seq, off, cutf))
+  | (creq, btw) :: t =>
+      let '(cut, rf, (seq1, off1, cutf1)) := alloc seq off (cutf || creq) btw in
+      let (l, e) := alloc_run seq1 off1 cutf1 t in ((cut, rf, btw) :: l, e)
+  end.
+
 (* WriteChunk: getNextChunkRef, then addJob.  Blocks while the job queue is full. *)
 Definition do_write (s : st) (r : rec) : st * out :=
   if (qmax <=? length (queue s))%nat then (s, OBlocked) else
